@@ -1017,7 +1017,36 @@ def trip(spec, scratch, via_app=False, serializer_cls=None, aspects=None):
     dd = diff(after, again)
     if dd:
         return {'status': 'not-idempotent', 'detail': [[p, x, y] for p, x, y in dd]}
+    # what the restored collection DOES, not only what it shows: the same follow-up operations on the original and on the
+    # restored collection (last, since they change both)
+    if aspects is None or 'groups' in aspects:
+        try:
+            with time_limit(30):
+                la, lb = liveness(dc), liveness(dc2)
+        except Exception as e:
+            return {'status': 'changed', 'detail': [['liveness', 'probe raised', '%s: %s' % (type(e).__name__, str(e)[:200])]], 'types': sorted(types_in(text))}
+        if la != lb:
+            return {'status': 'changed', 'detail': [['liveness after restore (append a dataset / new group / remove it again)', la, lb]], 'types': sorted(types_in(text))}
     return {'status': 'ok', 'detail': None, 'types': sorted(types_in(text)), 'nontrivial': nontrivial(before)}
+
+
+def liveness(dc):
+    """follow-up behaviour of a collection (the hub wiring of its subset groups): a dataset appended afterwards gets one subset
+    per group, a group created afterwards gets one subset per dataset, and removing the dataset takes them away again"""
+    from glue.core import Data
+    out = {}
+    d = Data(probe_v=[1.0, 2.0, 3.0], label='__probe__')
+    dc.append(d)
+    out['subsets_of_appended_dataset'] = sorted(str(x.label) for x in d.subsets)
+    out['group_sizes_after_append'] = [len(g.subsets) for g in dc.subset_groups]
+    g = dc.new_subset_group(label='__probe_group__')
+    out['new_group_members'] = len(g.subsets)
+    out['datasets_with_new_group'] = [sum(1 for x in dd_.subsets if x.label == '__probe_group__') for dd_ in dc]
+    dc.remove_subset_group(g)
+    dc.remove(d)
+    out['group_sizes_after_remove'] = [len(gr.subsets) for gr in dc.subset_groups]
+    out['n_data_after_remove'] = len(dc)
+    return out
 
 
 def records_in(text):
